@@ -3,6 +3,7 @@ import JSight.CheckExampleConv
 import JSight.CheckerComplete
 import JSight.CheckerLayout
 import JSight.CheckerLit
+import JSight.BridgeCK
 /-!
 # C04 — Check accepts a schema only if its own EXAMPLE obeys its rules
 
@@ -241,5 +242,69 @@ example : ((preorder ((LT.branch { nk := .arr, jt := .array, lex := ⟨.other, 0
       (.cons 2 (.leaf { nk := .lit, jt := .string, lex := ⟨.litEnd, 0, 0, [34, 97, 98, 34]⟩, cs := [] } 3) .nil)) 2).place 10)).map
       fun h => h.info.lex.begin) = [10, 12, 15] := by decide +kernel
 end Ex
+
+/-! ### Bridge (A)∩(C): `Compile.check` (text-level pipeline of C01) and `CK.checkSchema` model ONE piece of code
+
+`BridgeCK.dumpOf` is the dump of the compiled tree `Compile.CN` (+ type table) that the hook `VerifCheckerDump` would
+print, as far as `CN` keeps it (positions 0, a marker constraint for `bad`, one unnamed type per or-shortcut inside a
+named type); `BridgeCK.checkA` is `Compile.check` without `CheckRecursion`; `BridgeCK.checkC` is `CK.checkSchema` on
+the dump with the oracles (A) uses. -/
+
+open BridgeCK in
+/-- the FULL statement: whenever neither side runs out of fuel ((C): `crash`, (A): `unsupported`), the two checkers
+give the same verdict and the same error code. NOT PROVED in this session (the (A)∩(B) bridge came first); validated at
+run time by `vh bridge-models` on every schema that reaches the checker (component `C`: no disagreement after the repair
+of (A)'s key-shortcut order). -/
+def C04_models_agree_full : Prop :=
+  ∀ (root : Option Compile.CN) (ts : Compile.Types),
+    match resOf (checkC root ts) with
+    | none => True
+    | some c => isUnsupported (checkA root ts) = false → codeOfA (checkA root ts) = codeOfA c
+
+open BridgeCK in
+/-- `Compile.check` = `checkA` (CheckRootSchema, what (C) models), then `CheckRecursion` -/
+theorem C04_check_splits (root : Compile.CN) (ts : Compile.Types) :
+    Compile.check root ts =
+      (match checkA (some root) ts with
+       | .error e => .error e
+       | .ok () => if TG.check (Compile.tgOf root ts) then .ok () else .error (.code 104 0)) := by
+  unfold Compile.check checkA
+  simp only []
+  cases h1 : Compile.checkNode ts (Compile.checkFuel (some root) ts) root with
+  | error e => rfl
+  | ok u =>
+    cases u
+    simp only []
+    by_cases h2 : (!List.all ts fun t => Compile.orShortsOK ts t.snd) = true
+    · simp only [h2, if_true]
+    · simp only [h2, if_false]
+      cases h3 : Compile.checkTypes ts (Compile.checkFuel (some root) ts) (Compile.sortNames (List.map (fun x => x.fst) ts)) with
+      | error e => rfl
+      | ok u => cases u; rfl
+
+namespace BridgeEx
+open BridgeCK Compile
+def litI (tok : String) (rules : List RulesF.Rule) : CN := .lit { kind := .i, ex := sb tok, nul := false, rules := rules } false
+/-- `{ @k: 1, @z: 2 }` with `@k = 5`: the first shortcut key names a non-string type (1304), the second an undefined
+one (1302) — the order the bridge repaired in (A): both models answer 1304 -/
+def keysRoot : CN := .obj [("k", true, true, false, litI "1" []), ("z", true, true, false, litI "2" [])] .absent false false
+def keysTypes : Types := [("@k", litI "5" [])]
+example : codeOfA (checkA (some keysRoot) keysTypes) = some 1304 ∧ checkC (some keysRoot) keysTypes = .err 1304 0 0 none := by
+  decide +kernel
+/-- `[ 5 // {min: 7} ]`: the EXAMPLE violates its own rule, 602 in both -/
+def badEx : CN := .arr [litI "5" [.min (sb "7") false]] false false
+example : codeOfA (checkA (some badEx) []) = some 602 ∧ checkC (some badEx) [] = .err 602 0 0 none := by decide +kernel
+/-- `1 // {type: "@a"}` with `@a = "s"`: 1301 in both; with `@a = 2 // {min: 3}`: the EXAMPLE 1 fails the type's rule, 602 in both -/
+def refRoot : CN := .ref ["@a"] false .int (some (sb "1")) false
+example : codeOfA (checkA (some refRoot) [("@a", .lit { kind := .s, ex := sb "\"s\"", nul := false, rules := [] } false)]) = some 1301
+    ∧ checkC (some refRoot) [("@a", .lit { kind := .s, ex := sb "\"s\"", nul := false, rules := [] } false)] = .err 1301 0 0 none := by
+  decide +kernel
+example : codeOfA (checkA (some refRoot) [("@a", litI "2" [.min (sb "3") false])]) = some 602
+    ∧ checkC (some refRoot) [("@a", litI "2" [.min (sb "3") false])] = .err 602 0 0 none := by decide +kernel
+/-- an accepted schema: `[ 5 // {min: 1} ]` -/
+def goodEx : CN := .arr [litI "5" [.min (sb "1") false]] false false
+example : codeOfA (checkA (some goodEx) []) = none ∧ isUnsupported (checkA (some goodEx) []) = false
+    ∧ checkC (some goodEx) [] = .ok := by decide +kernel
+end BridgeEx
 
 end Props.C04
